@@ -241,8 +241,10 @@ def homomorphism(repo, res):
     FIELDS = {"unit_expr": "expr", "base_value": "base_value", "dimensions": "dimensions"}
 
     def final_unit_call(fn):
-        rets = [n for n in fn.body if isinstance(n, ast.Return)]
-        if not rets or not isinstance(rets[-1].value, ast.Call) or norm(rets[-1].value.func) != "Unit":
+        # the return that builds the result (wherever the layout of the branches puts it)
+        rets = [n for n in walk_no_nested(fn.node) if isinstance(n, ast.Return) and isinstance(n.value, ast.Call) and norm(n.value.func) == "Unit"]
+        rets.sort(key=lambda n: n.lineno)
+        if not rets:
             raise AnalysisError(f"{fn.where()}: final `return Unit(...)` not found")
         return rets[-1].value
 
